@@ -125,6 +125,9 @@ pub struct LargeCase {
     /// predictor per word)
     #[serde(default)]
     pub n_long_words: usize,
+    /// an additional text of this many characters (0: none)
+    #[serde(default)]
+    pub long_text: usize,
 }
 
 pub fn large_model(c: &LargeCase) -> SerCase {
@@ -198,6 +201,9 @@ pub fn large_model(c: &LargeCase) -> SerCase {
         texts.push([0, 1, n - 1, n / 2, n / 3 + 7].iter().map(|&k| long_word(k)).collect());
         texts.push(format!("{}{}", ch(3), long_word(n - 2)));
     }
+    if c.long_text > 0 {
+        texts.push((0..c.long_text).map(|i| ch((i * 7 + i / 13) % 300)).collect());
+    }
     SerCase { spec, texts, trailing: vec![9, 8, 7] }
 }
 
@@ -226,10 +232,13 @@ serialised predictor exceeds 2^25 (2^28) bytes; same round-trip + reference orac
 tag-model token",
         false,
         vec![
-            LargeCase { n_tag_models: 5000, n_char_ngrams: 300, n_words: 40, n_long_words: 0 },
-            LargeCase { n_tag_models: 200, n_char_ngrams: 70000, n_words: 250, n_long_words: 0 },
+            LargeCase { n_tag_models: 5000, n_char_ngrams: 300, n_words: 40, n_long_words: 0, long_text: 0 },
+            LargeCase { n_tag_models: 200, n_char_ngrams: 70000, n_words: 250, n_long_words: 0, long_text: 0 },
             // serialised size above 2^24, 2^25 bytes (thorough: above 2^28)
-            LargeCase { n_tag_models: 20, n_char_ngrams: 300, n_words: 10, n_long_words: rep.n(400_000, 3_000_000) as usize },
+            LargeCase { n_tag_models: 20, n_char_ngrams: 300, n_words: 10, n_long_words: rep.n(400_000, 3_000_000) as usize, long_text: 0 },
+            // texts above 65,535 characters through the reloaded predictor
+            LargeCase { n_tag_models: 20, n_char_ngrams: 300, n_words: 10, n_long_words: 0, long_text: 70_000 },
+            LargeCase { n_tag_models: 20, n_char_ngrams: 300, n_words: 10, n_long_words: 0, long_text: 65_536 },
         ]
         .into_iter(),
         |c: &LargeCase| test_case(&large_model(c)).map(|mut i| { i.nontrivial = true; i }),
